@@ -121,4 +121,82 @@ theorem filesG_not_below_gitdir {f : Forest} {d : Path} {i : Info} {k : Forest} 
         rw [get_cons_ne hne] at hg
         exact ih2 hr hg h (e ▸ hpre)
 
+/-! ### the proposed repair of the filter -/
+
+theorem hasCtl_hasCtlName {k : Forest} (h : hasCtl k = true) : hasCtlName k = true := by
+  induction k with
+  | nil => simp [hasCtl] at h
+  | cons i kids rest _ ih2 =>
+    simp only [hasCtl, Bool.or_eq_true, Bool.and_eq_true] at h
+    simp only [hasCtlName, Bool.or_eq_true]
+    rcases h with h | h
+    · exact Or.inl h.1
+    · exact Or.inr (ih2 h)
+
+theorem hasCtlName_containsCtlName {k : Forest} (h : hasCtlName k = true) : containsCtlName k = true := by
+  induction k with
+  | nil => simp [hasCtlName] at h
+  | cons i kids rest _ ih2 =>
+    simp only [hasCtlName, Bool.or_eq_true] at h
+    simp only [containsCtlName, Bool.or_eq_true]
+    rcases h with h | h
+    · exact Or.inl (Or.inl h)
+    · exact Or.inr (ih2 h)
+
+theorem hasCtl_containsCtlName {k : Forest} (h : hasCtl k = true) : containsCtlName k = true :=
+  hasCtlName_containsCtlName (hasCtl_hasCtlName h)
+
+/-- a control name occurring in a path of `k` occurs in `k` -/
+theorem containsCtlName_of_path {k : Forest} {q : Path} {c : String} (hq : q ∈ k.paths)
+    (hc : c ∈ q) (hn : isCtlName c = true) : containsCtlName k = true := by
+  induction k generalizing q with
+  | nil => simp [Forest.paths] at hq
+  | cons i kids rest ih1 ih2 =>
+    simp only [Forest.paths, List.mem_cons, List.mem_append, List.mem_map] at hq
+    simp only [containsCtlName, Bool.or_eq_true]
+    rcases hq with (hq | ⟨t, ht, rfl⟩) | hq
+    · subst hq
+      simp at hc; subst hc
+      exact Or.inl (Or.inl hn)
+    · simp only [List.mem_cons] at hc
+      rcases hc with rfl | hc
+      · exact Or.inl (Or.inl hn)
+      · exact Or.inl (Or.inr (ih1 ht hc))
+    · exact Or.inr (ih2 hq hc)
+
+theorem hasCtlName_of_single {k : Forest} {c : String} (hq : [c] ∈ k.paths)
+    (hn : isCtlName c = true) : hasCtlName k = true := by
+  induction k with
+  | nil => simp [Forest.paths] at hq
+  | cons i kids rest _ ih2 =>
+    simp only [Forest.paths, List.mem_cons, List.mem_append, List.mem_map] at hq
+    simp only [hasCtlName, Bool.or_eq_true]
+    rcases hq with (hq | ⟨t, _, ht⟩) | hq
+    · simp at hq; subst hq; exact Or.inl hn
+    · simp at ht; exact Or.inl (ht.1 ▸ hn)
+    · exact Or.inr (ih2 hq)
+
+/-- in a well-formed layout every listed path can be looked up -/
+theorem get_of_mem_paths {f : Forest} {q : Path} (hw : f.wf = true) (h : q ∈ f.paths) :
+    ∃ x, f.get q = some x := by
+  induction f generalizing q with
+  | nil => simp [Forest.paths] at h
+  | cons i kids rest ih1 ih2 =>
+    obtain ⟨hn, _, _, _, _, _, hk, hr⟩ := wf_cons hw
+    simp only [Forest.paths, List.mem_cons, List.mem_append, List.mem_map] at h
+    rcases h with (h | ⟨t, ht, rfl⟩) | h
+    · subst h; exact ⟨_, get_cons_self⟩
+    · obtain ⟨a, b, rfl, _⟩ := paths_head ht
+      rw [get_cons_down]; exact ih1 hk ht
+    · obtain ⟨a, b, rfl, ha⟩ := paths_head h
+      have hne : i.name ≠ a := fun e' => hn (e' ▸ ha)
+      rw [get_cons_ne hne]; exact ih2 hr h
+
+/-- a path below an entry is a path of the entry's content -/
+theorem paths_below {f : Forest} {p r : Path} {i : Info} {k : Forest} (hw : f.wf = true)
+    (hg : f.get p = some (i, k)) (hr : r ≠ []) (hm : p ++ r ∈ f.paths) : r ∈ k.paths := by
+  obtain ⟨x, hx⟩ := get_of_mem_paths hw hm
+  rw [get_append hg hr] at hx
+  exact mem_paths_of_get hx
+
 end BreezyVerif.C46
